@@ -5,12 +5,14 @@
 //	clock     time.Now / time.Since / time.Until
 //	rand      math/rand top-level functions (randomly seeded by the runtime)
 //	yield     simrt.Yield at every function entry and loop-body entry
-//	lock      x.Lock()/x.RLock() on sync.Mutex/RWMutex, once.Do, go statements
+//	lock      x.Lock()/x.RLock() on sync.Mutex/RWMutex, once.Do, go statements,
+//	          channel send / receive / range, receive-only select statements
+//	clock     ... also time.AfterFunc and time.Sleep (timer seam)
 //
 // It type-checks every package with go/types (source importer) to find the
 // sites, rewrites the files in place with go/format, records the site list and
 // adds the simrt requirement to the copy's go.mod.  Blocking constructs it cannot
-// model (channel operations, select, sync.Cond) are listed as sites of kind
+// model (select with send cases, sync.Cond, timer channels) are listed as sites of kind
 // "blocking"; the harness then falls back to real goroutines for the scheduled
 // batches.
 package main
@@ -147,6 +149,7 @@ type pkgCtx struct {
 	keepRuntime bool
 	keepSync    bool
 	funcName    string
+	pkgPath     string
 }
 
 func doPackage(dir string, on map[string]bool) error {
@@ -191,7 +194,7 @@ func doPackage(dir string, on map[string]bool) error {
 		return fmt.Errorf("type errors: %s", strings.Join(terrs[:min(len(terrs), 5)], "; "))
 	}
 	for i, f := range files {
-		c := &pkgCtx{fset: fset, info: info, on: on, file: f}
+		c := &pkgCtx{fset: fset, info: info, on: on, file: f, pkgPath: files[0].Name.Name}
 		c.rewriteFile()
 		if !c.usedRT {
 			continue
@@ -362,6 +365,18 @@ func (c *pkgCtx) stmt(s ast.Stmt) ast.Stmt {
 	case *ast.ExprStmt:
 		s.X = c.expr(s.X)
 	case *ast.AssignStmt:
+		if len(s.Lhs) == 2 && len(s.Rhs) == 1 && c.on["lock"] {
+			if u, ok := s.Rhs[0].(*ast.UnaryExpr); ok && u.Op == token.ARROW {
+				// v, ok := <-ch
+				c.usedRT = true
+				sid := newSite("chan", c.fset, u.Pos(), c.funcName, "receive (comma ok)")
+				s.Rhs[0] = rtCall("Recv2", c.expr(u.X), intLit(sid))
+				for i := range s.Lhs {
+					s.Lhs[i] = c.expr(s.Lhs[i])
+				}
+				return s
+			}
+		}
 		for i := range s.Rhs {
 			s.Rhs[i] = c.expr(s.Rhs[i])
 		}
@@ -372,6 +387,14 @@ func (c *pkgCtx) stmt(s ast.Stmt) ast.Stmt {
 		if g, ok := s.Decl.(*ast.GenDecl); ok {
 			for _, sp := range g.Specs {
 				if vs, ok := sp.(*ast.ValueSpec); ok {
+					if len(vs.Names) == 2 && len(vs.Values) == 1 && c.on["lock"] {
+						if u, ok := vs.Values[0].(*ast.UnaryExpr); ok && u.Op == token.ARROW {
+							c.usedRT = true
+							sid := newSite("chan", c.fset, u.Pos(), c.funcName, "receive (comma ok)")
+							vs.Values[0] = rtCall("Recv2", c.expr(u.X), intLit(sid))
+							continue
+						}
+					}
 					for i := range vs.Values {
 						vs.Values[i] = c.expr(vs.Values[i])
 					}
@@ -403,9 +426,13 @@ func (c *pkgCtx) stmt(s ast.Stmt) ast.Stmt {
 		}
 		s.Body = c.stmts(s.Body)
 	case *ast.SelectStmt:
-		c.refuse(s.Pos(), "select statement")
+		return c.selectStmt(s, nil)
 	case *ast.SendStmt:
-		c.refuse(s.Pos(), "channel send")
+		if c.on["lock"] {
+			c.usedRT = true
+			sid := newSite("chan", c.fset, s.Pos(), c.funcName, "send")
+			return &ast.ExprStmt{X: rtCall("Send", c.expr(s.Chan), c.expr(s.Value), intLit(sid))}
+		}
 	case *ast.CommClause:
 		s.Body = c.stmts(s.Body)
 	case *ast.DeferStmt:
@@ -436,6 +463,13 @@ func (c *pkgCtx) stmt(s ast.Stmt) ast.Stmt {
 			s.Stmt = loop
 			return &ast.BlockStmt{List: append(pre, s)}
 		}
+		if sel, ok := s.Stmt.(*ast.SelectStmt); ok {
+			return c.selectStmt(sel, s)
+		}
+		if r, ok := s.Stmt.(*ast.RangeStmt); ok && c.on["lock"] && c.isChan(r.X) {
+			s.Stmt = c.chanRange(r)
+			return s
+		}
 		s.Stmt = c.stmt(s.Stmt)
 	case *ast.ForStmt:
 		s.Init = c.stmt(s.Init)
@@ -449,16 +483,171 @@ func (c *pkgCtx) stmt(s ast.Stmt) ast.Stmt {
 			pre, loop := c.mapRange(s)
 			return &ast.BlockStmt{List: append(pre, loop)}
 		}
-		if tv, ok := c.info.Types[s.X]; ok && tv.Type != nil {
-			if _, isChan := tv.Type.Underlying().(*types.Chan); isChan {
-				c.refuse(s.Pos(), "range over channel")
-			}
+		if c.on["lock"] && c.isChan(s.X) {
+			return c.chanRange(s)
 		}
 		s.X = c.expr(s.X)
 		c.loopBody(s.Body, s.Pos())
 	case *ast.IncDecStmt, *ast.BranchStmt, *ast.EmptyStmt:
 	}
 	return s
+}
+
+func (c *pkgCtx) isChan(e ast.Expr) bool {
+	if tv, ok := c.info.Types[e]; ok && tv.Type != nil {
+		_, is := tv.Type.Underlying().(*types.Chan)
+		return is
+	}
+	return false
+}
+
+// chanRange rewrites `for v := range ch { B }` into
+//
+//	for {
+//		v, __okN := simrt.Recv2(ch, site)
+//		if !__okN { break }
+//		B
+//	}
+//
+// (break and continue in B keep their meaning: it is still the innermost loop).
+func (c *pkgCtx) chanRange(r *ast.RangeStmt) ast.Stmt {
+	c.usedRT = true
+	sid := newSite("chan", c.fset, r.Pos(), c.funcName, "range over channel")
+	okv := ast.NewIdent("__ok" + strconv.Itoa(sid))
+	chv := ast.NewIdent("__ch" + strconv.Itoa(sid))
+	pre := &ast.AssignStmt{Lhs: []ast.Expr{chv}, Tok: token.DEFINE, Rhs: []ast.Expr{c.expr(r.X)}}
+	var lhs ast.Expr = ast.NewIdent("_")
+	tok := token.DEFINE
+	if r.Key != nil {
+		lhs = r.Key
+		if r.Tok == token.ASSIGN {
+			tok = token.ASSIGN
+		}
+	}
+	inner := &ast.BlockStmt{List: r.Body.List}
+	c.loopBody(inner, r.Pos())
+	var body []ast.Stmt
+	if tok == token.ASSIGN {
+		// v = range ch : v exists already, only the flag is new
+		body = append(body,
+			&ast.DeclStmt{Decl: &ast.GenDecl{Tok: token.VAR, Specs: []ast.Spec{&ast.ValueSpec{Names: []*ast.Ident{okv}, Type: ast.NewIdent("bool")}}}},
+			&ast.AssignStmt{Lhs: []ast.Expr{lhs, okv}, Tok: token.ASSIGN, Rhs: []ast.Expr{rtCall("Recv2", chv, intLit(sid))}})
+	} else {
+		body = append(body, &ast.AssignStmt{Lhs: []ast.Expr{lhs, okv}, Tok: token.DEFINE, Rhs: []ast.Expr{rtCall("Recv2", chv, intLit(sid))}})
+	}
+	body = append(body, &ast.IfStmt{Cond: &ast.UnaryExpr{Op: token.NOT, X: okv}, Body: &ast.BlockStmt{List: []ast.Stmt{&ast.BranchStmt{Tok: token.BREAK}}}})
+	body = append(body, inner.List...)
+	loop := &ast.ForStmt{Body: &ast.BlockStmt{List: body}}
+	return &ast.BlockStmt{List: []ast.Stmt{pre, loop}}
+}
+
+// selectStmt: a select statement without default clause may block.  It is
+// carried out parked (see simrt.Park): the task hands the turn on, blocks in
+// the real select and queues for the turn again in whichever clause fires:
+//
+//	{
+//		__pN := simrt.Park(site)
+//		select {
+//		case v := <-a:
+//			simrt.Unpark(__pN)
+//			...
+//		case b <- x:
+//			simrt.Unpark(__pN)
+//			...
+//		}
+//	}
+//
+// A select with a default clause never blocks and stays as it is.  The
+// operands of the communication clauses are evaluated while the task is
+// parked, so they must not run library code: a clause that calls into a
+// package which is not part of the standard library (or sets a timer) leaves
+// the statement alone, and it is listed as a blocking site.
+func (c *pkgCtx) selectStmt(s *ast.SelectStmt, outer *ast.LabeledStmt) ast.Stmt {
+	wrap := func() ast.Stmt {
+		if outer != nil {
+			outer.Stmt = s
+			return outer
+		}
+		return s
+	}
+	hasDefault, simple := false, c.on["lock"]
+	why := ""
+	for _, cl := range s.Body.List {
+		cc := cl.(*ast.CommClause)
+		cc.Body = c.stmts(cc.Body)
+		if cc.Comm == nil {
+			hasDefault = true
+			continue
+		}
+		ast.Inspect(cc.Comm, func(n ast.Node) bool {
+			call, ok := n.(*ast.CallExpr)
+			if !ok {
+				return true
+			}
+			if tv, ok := c.info.Types[call.Fun]; ok && tv.IsType() {
+				return true // a conversion
+			}
+			var id *ast.Ident
+			switch f := call.Fun.(type) {
+			case *ast.Ident:
+				id = f
+			case *ast.SelectorExpr:
+				id = f.Sel
+			}
+			obj := c.info.Uses[id]
+			if id == nil || obj == nil {
+				simple, why = false, "computed callee"
+				return true
+			}
+			if _, builtin := obj.(*types.Builtin); builtin {
+				return true
+			}
+			pkg := ""
+			if obj.Pkg() != nil {
+				pkg = obj.Pkg().Path()
+			}
+			first := strings.SplitN(pkg, "/", 2)[0]
+			if pkg == "" || strings.Contains(first, ".") || pkg == c.pkgPath {
+				simple, why = false, "calls "+pkg+"."+obj.Name()
+			}
+			if pkg == "time" && (obj.Name() == "After" || obj.Name() == "Tick" || obj.Name() == "NewTimer" || obj.Name() == "NewTicker") {
+				simple, why = false, "timer channel"
+			}
+			return true
+		})
+	}
+	if hasDefault {
+		return wrap()
+	}
+	if !simple {
+		c.refuse(s.Pos(), "select statement ("+why+")")
+		return wrap()
+	}
+	c.usedRT = true
+	sid := newSite("chan", c.fset, s.Pos(), c.funcName, "select")
+	pv := ast.NewIdent("__p" + strconv.Itoa(sid))
+	for _, cl := range s.Body.List {
+		cc := cl.(*ast.CommClause)
+		cc.Body = append([]ast.Stmt{&ast.ExprStmt{X: rtCall("Unpark", ast.NewIdent(pv.Name))}}, cc.Body...)
+	}
+	pre := &ast.AssignStmt{Lhs: []ast.Expr{pv}, Tok: token.DEFINE, Rhs: []ast.Expr{rtCall("Park", intLit(sid))}}
+	return &ast.BlockStmt{List: []ast.Stmt{pre, wrap()}}
+}
+
+// plainOperand: an identifier or a chain of field selections (no calls, no
+// indexing with side effects).
+func plainOperand(e ast.Expr) bool {
+	switch e := e.(type) {
+	case *ast.Ident:
+		return true
+	case *ast.SelectorExpr:
+		return plainOperand(e.X)
+	case *ast.ParenExpr:
+		return plainOperand(e.X)
+	case *ast.StarExpr:
+		return plainOperand(e.X)
+	}
+	return false
 }
 
 // mapRange rewrites `for K, V := range M { B }` into
@@ -544,8 +733,10 @@ func (c *pkgCtx) expr(e ast.Expr) ast.Expr {
 	case *ast.StarExpr:
 		e.X = c.expr(e.X)
 	case *ast.UnaryExpr:
-		if e.Op == token.ARROW {
-			c.refuse(e.Pos(), "channel receive")
+		if e.Op == token.ARROW && c.on["lock"] {
+			c.usedRT = true
+			sid := newSite("chan", c.fset, e.Pos(), c.funcName, "receive")
+			return rtCall("Recv", c.expr(e.X), intLit(sid))
 		}
 		e.X = c.expr(e.X)
 	case *ast.BinaryExpr:
@@ -593,6 +784,21 @@ func (c *pkgCtx) call(e *ast.CallExpr) ast.Expr {
 				c.keepTime = true
 				newSite("clock", c.fset, e.Pos(), c.funcName, se.Sel.Name)
 				return rtCall(se.Sel.Name, e.Args...)
+			}
+			if c.on["clock"] && se.Sel.Name == "AfterFunc" && len(e.Args) == 2 {
+				c.usedRT = true
+				c.keepTime = true
+				sid := newSite("timer", c.fset, e.Pos(), c.funcName, "AfterFunc")
+				return rtCall("AfterFunc", e.Args[0], e.Args[1], intLit(sid))
+			}
+			if c.on["clock"] && se.Sel.Name == "Sleep" {
+				c.usedRT = true
+				c.keepTime = true
+				newSite("timer", c.fset, e.Pos(), c.funcName, "Sleep")
+				return rtCall("Sleep", e.Args...)
+			}
+			if c.on["clock"] && (se.Sel.Name == "After" || se.Sel.Name == "NewTimer" || se.Sel.Name == "NewTicker" || se.Sel.Name == "Tick") {
+				c.refuse(e.Pos(), "time."+se.Sel.Name+" (timer channel)")
 			}
 		case "runtime":
 			if c.on["lock"] && (se.Sel.Name == "GOMAXPROCS" || se.Sel.Name == "NumCPU") {
@@ -643,7 +849,10 @@ func (c *pkgCtx) call(e *ast.CallExpr) ast.Expr {
 				}
 			case "(*sync.Cond).Wait":
 				if c.on["lock"] {
-					c.refuse(e.Pos(), full)
+					c.usedRT = true
+					c.keepSync = true
+					sid := newSite("chan", c.fset, e.Pos(), c.funcName, "sync.Cond.Wait")
+					return rtCall("CondWait", se.X, intLit(sid))
 				}
 			case "(reflect.Value).MapRange", "(reflect.Value).MapKeys":
 				warnings = append(warnings, fmt.Sprintf("%s: %s iterates a map outside the map-order seam; covered only by cross-process repetition", c.fset.Position(e.Pos()), full))
